@@ -89,3 +89,6 @@ def check(ctx):
     E.literal_origin(ctx)
     E.sh_safe(ctx, include_make_recipe=False)
     cmd_indirection(ctx)
+    from ..rules import graph as G
+    ctx.rule('ENV-EXPORT', 'command steps export their environment for every command of the step')
+    G.env_export(ctx, 'ENV-EXPORT', backends=('ninja',))
